@@ -8,7 +8,7 @@ func init() {
 		NotDecided: []string{"that the SIMD kernels compute the masks their tables imply at every block offset and across carries", "\\u/surrogate distance logic inside the machine code", "strconv's own number grammar (argued: over [0-9.+-eE] with the shape checks it equals the JSON number language)"},
 		Assumptions: []string{"go/types resolves the same callees the compiler does", "asm DATA bytes never mentioned are zero (assembler semantics)"},
 		Exhaustive: true,
-		Quick:      []string{"C01.aut", "C01.tab.follow", "C01.tab.number", "C01.tab.markup", "C01.num.shape", "C01.num.loop", "C01.err", "C01.end", "C15.reset", "C02.cursor"},
+		Quick:      []string{"C01.aut", "C01.tab.follow", "C01.tab.number", "C01.tab.markup", "C01.num.shape", "C01.num.loop", "C01.err", "C01.end", "C15.reset", "C02.cursor", "C05.const"},
 	})
 	regProp(&PropInfo{ID: "C03",
 		Decides:    "The type cascade and overflow-flag discipline of parseNumber on every control-flow path: which strconv conversion may produce which tag and value word, integer attempts first, ErrRange recorded after every failed integer attempt, flag set only for integer notation, length gate admits all int64/uint64 literals; addNumber writes (tag,value) exactly when a tag was produced.",
@@ -22,7 +22,7 @@ func init() {
 		NotDecided: []string{"stage-1 index production (SIMD)", "unescaping (C04)", "numeric values (C03)", "duplicate-key behaviour of Go maps in Map/Interface"},
 		Assumptions: []string{"integer conversions do not wrap for in-range tapes"},
 		Exhaustive: true,
-		Quick:      []string{"C02.retaddr", "C02.sizeclass", "C02.restrict", "C02.map", "C17.pair"},
+		Quick:      []string{"C02.retaddr", "C02.sizeclass", "C02.restrict", "C02.map", "C17.pair", "C02.cursor", "C04.buf"},
 	})
 	regProp(&PropInfo{ID: "C14",
 		Decides:    "Reader/writer agreement on deleted ranges: on a NOP word every reader moves the cursor by exactly the payload from the NOP's own index and then re-examines the landing word; every writer (DeleteElems, SetNull, Deserialize) stores payload end−index with end one past the filled range, over exactly key+value / value.",
@@ -43,7 +43,7 @@ func init() {
 		NotDecided: []string{"memory safety inside the SIMD kernels beyond the slack arithmetic", "time bounds other than loop progress", "bounds of every tape index on the read API (C19.bounds covers the corrupt-tape side)"},
 		Assumptions: []string{"every index entry refers to a distinct input byte (stage 1 emits at most one index per byte)"},
 		Exhaustive: true,
-		Quick:      []string{"C05.term", "C05.drain", "C05.const", "C05.progress", "C01.err", "C02.cursor"},
+		Quick:      []string{"C05.term", "C05.drain", "C05.const", "C05.progress", "C01.err", "C02.cursor", "C04.buf"},
 	})
 	regProp(&PropInfo{ID: "C07",
 		Decides:    "Structural reasons no interleaving can lose or overwrite an index buffer and both stages terminate on every error path: ring arithmetic (cap+2 <= slots, slot = counter % slots), exactly-once terminator, drain discipline of the consumer goroutine, join before return.",
@@ -64,6 +64,20 @@ func init() {
 		NotDecided: []string{"agreement of the SIMD newline mask with byte-wise splitting (C08.gate, asm, not yet built)", "the empty-input corner"},
 		Assumptions: []string{},
 		Exhaustive: true,
-		Quick:      []string{"C08.rows", "C01.err", "C15.reset", "C01.aut"},
+		Quick:      []string{"C08.rows", "C01.err", "C15.reset", "C01.aut", "C05.const", "C05.term"},
+	})
+	regProp(&PropInfo{ID: "C04",
+		Decides:    "The buffer arithmetic around the string kernels on every path of parseString: padding guarantees a full 32-byte window after the string's maximum extent, the padded copies are large enough and filled, the destination has decoded size + 32 bytes of slack and keeps its content when grown, in-place vs copied payload (STRINGBUFBIT) and the length word are consistent with the mode; the copy decision can only be raised by the validator.",
+		NotDecided: []string{"the window/escape-position logic and arithmetic of the machine code for each alignment (no AVX semantics model) — the bulk of the property", "lookup tables of the string kernels until C01.tab.string is built"},
+		Assumptions: []string{"the kernels read at most one 32-byte window past the closing quote and store whole 32-byte words"},
+		Exhaustive: true,
+		Quick:      []string{"C04.buf", "C04.needcopy"},
+	})
+	regProp(&PropInfo{ID: "C16",
+		Decides:    "Copy mode: the copy-strings default is re-established before the options on every call, the option stores its argument, the validator can only raise the copy decision, and parseString writes the in-place payload only when no copy is needed.",
+		NotDecided: []string{"observational equality of the two modes", "Clone independence until C16.clone is built"},
+		Assumptions: []string{},
+		Exhaustive: true,
+		Quick:      []string{"C04.buf", "C04.needcopy", "C15.reset"},
 	})
 }
